@@ -245,6 +245,7 @@ func c04Fixed() {
 	if cool >= time.Millisecond {
 		unit = cool / 8
 	}
+	committed := make([]int, nCons) // values each (still open) consumer has committed
 	for i := 0; i < nCons; i++ {
 		c, err := b.NewConsumer()
 		if err != nil {
@@ -252,15 +253,21 @@ func c04Fixed() {
 			return
 		}
 		reads := simrt.DrawRange(0, total)
+		i := i
 		go func() {
+			pending := 0
 			for r := 0; r < reads; r++ {
 				if _, err := c.Get(bg); err != nil {
 					simrt.Probe("lagging_consumer_failed")
 					_ = c.Rollback()
 					return // evicted under it: legal with a forced trim
 				}
+				pending++
 				if simrt.Chance(1, 2) {
-					_ = c.Commit()
+					if c.Commit() == nil {
+						committed[i] += pending
+						pending = 0
+					}
 				}
 			}
 			_ = c.Rollback()
@@ -286,6 +293,20 @@ func c04Fixed() {
 	if got := b.Size(); got > max {
 		simrt.Failf("C04.fixed-exceeds-max", "quiescent with FixedBufferCleaner(max=%d,target=%d), cooldown %v: Size()=%d > max after %d values were put", max, target, cool, got, total)
 		return
+	}
+	// the first clause holds with this cleaner too ("forces cleanup past the default"): what every open
+	// consumer has committed past is gone at quiescence
+	if nCons > 0 {
+		least := committed[0]
+		for _, n := range committed {
+			if n < least {
+				least = n
+			}
+		}
+		if got := b.Size(); got > total-least {
+			simrt.Failf("C04.fixed-keeps-consumed-prefix", "quiescent with FixedBufferCleaner(max=%d,target=%d), cooldown %v: %d values were put, every open consumer has committed at least %d of them, yet Size()=%d > %d", max, target, cool, total, least, got, total-least)
+			return
+		}
 	}
 	_ = b.Close()
 	simrt.Quiesce(-1)
